@@ -859,7 +859,12 @@ def decompose_matrix(matrix):
     angles[1] = np.arctan2(-row[0, 2], cy)
     if cy > _EPS:
         angles[0] = np.arctan2(row[1, 2], row[2, 2])
-        angles[2] = np.arctan2(row[0, 1], row[0, 0])
+        # as in euler_from_matrix: the last angle from the O(1) entries left
+        # after removing the first one, not from the O(cy) entries
+        si, ci = np.sin(angles[0]), np.cos(angles[0])
+        angles[2] = np.arctan2(
+            si * row[2, 0] - ci * row[1, 0], ci * row[1, 1] - si * row[2, 1]
+        )
     else:
         angles[0] = np.arctan2(-row[2, 1], row[1, 1])
         angles[2] = 0.0
@@ -1213,7 +1218,13 @@ def euler_from_matrix(matrix, axes="sxyz"):
         if sy > _EPS:
             ax = np.arctan2(M[i, j], M[i, k])
             ay = np.arctan2(sy, M[i, i])
-            az = np.arctan2(M[j, i], -M[k, i])
+            # the last angle from what is left once the first one is removed:
+            # these are O(1) entries, where M[j, i] and M[k, i] are O(sy) and
+            # close to gimbal lock their noise is unrelated to the noise in `ax`
+            si, ci = np.sin(ax), np.cos(ax)
+            az = np.arctan2(
+                ci * M[k, j] - si * M[k, k], ci * M[j, j] - si * M[j, k]
+            )
         else:
             ax = np.arctan2(-M[j, k], M[j, j])
             ay = np.arctan2(sy, M[i, i])
@@ -1223,7 +1234,11 @@ def euler_from_matrix(matrix, axes="sxyz"):
         if cy > _EPS:
             ax = np.arctan2(M[k, j], M[k, k])
             ay = np.arctan2(-M[k, i], cy)
-            az = np.arctan2(M[j, i], M[i, i])
+            # see above: use the O(1) entries rather than the O(cy) ones
+            si, ci = np.sin(ax), np.cos(ax)
+            az = np.arctan2(
+                si * M[i, k] - ci * M[i, j], ci * M[j, j] - si * M[j, k]
+            )
         else:
             ax = np.arctan2(-M[j, k], M[j, j])
             ay = np.arctan2(-M[k, i], cy)
